@@ -385,6 +385,16 @@ def run_shard(shard, tier, seed, rec):
                 except TypeError:
                     continue
                 raise Violation("C16:codec-accepts-invalid", f"EPName({bad!r}) accepted", "TypeError")
+            # the other direction: every string the grammar accepts converts to (name, version) and back to itself
+            for epn in (nm + "__01.0.0", nm + "__1.00.0", nm + "__0.0.007", nm + "__00.0.0", nm + "__10.20.30"):
+                try:
+                    ok = ptypes.EPName(epn)
+                except TypeError:
+                    continue
+                back2 = ptypes.to_ep_name(*ptypes.from_ep_name(ok))
+                if back2 != epn:
+                    raise Violation("C16:codec-roundtrip:from-string", f"{epn!r} is accepted as entry point name but converts to "
+                                    f"{ptypes.from_ep_name(ok)} and back to {back2!r}", "itself (or refused)")
             rec.case(nt_key=("codec", nm, v) if ("." in nm or "-" in nm or "_" in nm) else None,
                      classes=["codec_roundtrip"], sample=dict(kind="codec", name=nm, version=v))
 
